@@ -648,7 +648,26 @@ def subprocess_samples(s, tmpdir, n):
         judge_subprocess(s, argv, paths, flavour, inc, ns, tmpdir)
 
 
-def judge_subprocess(s, argv, paths, flavour, inc, ns, cwd):
+def fixed_subprocess_samples(s, tmpdir):
+    """Two console-script runs that never depend on the draw: a non-strict merge with one failing message and
+    one that reports a missing story, each under the default filters and under -W error - same output, status 0."""
+    docs = [gen.grid_ro(['A', 'B', 'C'], 'none', pretty=False),
+            B.msg_doc('roStoryReplace', 3, target='gone', carried=[gen.simple_story('N1', 1)]),
+            B.msg_doc('roStoryDelete', 4, ids=['B', 'also-gone']),
+            B.msg_doc('roStoryAppend', 5, carried=[gen.simple_story('N2', 1)]),
+            B.msg_doc('roDelete', 9)]
+    paths = []
+    for k, d in enumerate(docs):
+        p_ = os.path.join(tmpdir, 'fixed-%d.mos.xml' % k)
+        with open(p_, 'w', encoding='utf-8') as f:
+            f.write(d)
+        paths.append(p_)
+    for flags in ((), ('-W', 'error'), ('-W', 'error::UserWarning'), ('-W', 'always')):
+        judge_subprocess(s, ['merge', '-f'] + paths + ['-n'], paths, 'fixed-non-strict', False, True, tmpdir, pyflags=list(flags))
+        s.hist['cli:subprocess:fixed'] += 1
+
+
+def judge_subprocess(s, argv, paths, flavour, inc, ns, cwd, pyflags=None):
     from ..run import worker_env
     env = worker_env()
     env.pop('BBC_MOSROMGR_VERIF', None)
@@ -673,7 +692,8 @@ def judge_subprocess(s, argv, paths, flavour, inc, ns, cwd):
     try:
         # every other sample runs the interpreter with warnings as errors (-W error): the command line decides
         # for itself what it does with the library's warnings, the outcome is the same
-        pyflags = ['-W', 'error'] if (len(argv) + len(paths)) % 2 else []
+        if pyflags is None:
+            pyflags = ['-W', 'error'] if (len(argv) + len(paths)) % 2 else []
         s.hist['cli:subprocess:%s' % ('W-error' if pyflags else 'default-filters')] += 1
         p = subprocess.run([sys.executable, '-B'] + pyflags + ['-c', code] + argv, env=env, capture_output=True,
                            timeout=60, cwd=cwd)
@@ -739,6 +759,8 @@ def _run(s, q, base):
         sub = os.path.join(base, 'sub')
         os.makedirs(sub)
         subprocess_samples(s, sub, 16 if q else 400)
+        if s.mine(1):
+            fixed_subprocess_samples(s, sub)
     finally:
         shutil.rmtree(base, ignore_errors=True)
 
